@@ -356,6 +356,8 @@ class WinDriver:
         self.em = rdc.WindowsApiEmitter(self.q, ObservedWatch(root, recursive=recursive), timeout=0.01)
         self.em._whandle = object()          # never started: no thread, no handle
         self.root = root
+        self.state = ""                      # the pending RENAMED_OLD_NAME path the repaired code must hold
+        self.trace = []                      # (state before, natives, state after, real attribute after | None)
 
     def feed(self, natives):
         """natives: [(action, relative name)] -> real events (through read_events and _parse_event_buffer)."""
@@ -372,6 +374,11 @@ class WinDriver:
             self.em.queue_events(0.01)
         finally:
             self.winapi.read_directory_changes = saved
+        before = self.state
+        for a, name in natives:
+            if a == A_OLD:
+                self.state = os.path.join(self.root, name)
+        self.last = (before, self.state, getattr(self.em, "_last_renamed_src_path", None))
         return drain(self.q)
 
     def oracles(self, natives):
@@ -555,8 +562,11 @@ def run_history(ctx, res, rng, hid, length, burst, pend):
             if not ops:
                 break
             steps += len(ops)
+            did_coalesce = False
             if burst and rng.random() < 0.5:
+                n0 = len(fn)
                 fn = py_coalesce(fn)
+                did_coalesce = len(fn) < n0
             is_paced = paced(ops, kinds_at)
             if burst:
                 res.hist("burst_paced", is_paced)
@@ -570,7 +580,7 @@ def run_history(ctx, res, rng, hid, length, burst, pend):
             # ---- Windows
             worc = wd.oracles(wn)
             wev = [ev_tuple(e) for e in wd.feed(wn)]
-            pend["win"].append((rec_w, w.root, wn, worc, wev, [op_json(o) for o in ops]))
+            pend["win"].append((rec_w, w.root, wn, worc, wev, [op_json(o) for o in ops], wd.last))
             res.evaluations += 1
             for law, detail, extra in (check_step("windows", rec_w, w.root, before, after, ops, wev, kinds_at) if is_paced else []):
                 sig = make_sig("windows", law, "several-ops-per-batch" if burst else "one-op-per-batch", extra, wn)
@@ -582,10 +592,12 @@ def run_history(ctx, res, rng, hid, length, burst, pend):
             if not burst and ops[0][0] == "rename" and rec_w and rng.random() < 0.3:
                 # the same notifications, cut between RENAMED_OLD_NAME and RENAMED_NEW_NAME (two reads, second emitter)
                 wd2 = WinDriver(w.root, True)
-                cut = [ev_tuple(e) for e in wd2.feed(wn[:1])] + [ev_tuple(e) for e in wd2.feed(wn[1:])]
                 orc2 = wd2.oracles(wn)
-                pend["win"].append((True, w.root, wn[:1], orc2, cut[:0], [op_json(o) for o in ops]))
-                pend["win"].append((True, w.root, wn[1:], orc2, cut, [op_json(o) for o in ops]))
+                cut1 = [ev_tuple(e) for e in wd2.feed(wn[:1])]
+                pend["win"].append((True, w.root, wn[:1], orc2, cut1, [op_json(o) for o in ops], wd2.last))
+                cut2 = [ev_tuple(e) for e in wd2.feed(wn[1:])]
+                pend["win"].append((True, w.root, wn[1:], orc2, cut2, [op_json(o) for o in ops], wd2.last))
+                cut = cut1 + cut2
                 res.evaluations += 1
                 res.hist("win_cut_between_old_and_new", True)
                 for law, detail, extra in check_step("windows", True, w.root, before, after, ops, cut, kinds_at):
@@ -607,10 +619,10 @@ def run_history(ctx, res, rng, hid, length, burst, pend):
             for law, detail, extra in (check_step("fsevents", rec_f, w.root, before, after, ops, fev, kinds_at) if is_paced else []):
                 sig = make_sig("fsevents", law, "several-ops-per-batch" if burst else "one-op-per-batch", extra, fn)
                 if burst:
-                    detail = "pattern " + burst_pattern(ops, fn) + " | " + detail
+                    sig["pattern"], sig["detail"] = batch_pattern(fs_before, ops, did_coalesce)
                 res.failures.append(Failure(
                     what=f"FSEventsEmitter: {law} law violated", signature=sig,
-                    case={"emitter": "fsevents", "recursive": rec_f, "mode": sig["mode"], "coalesced": len(fn) < sum(1 for _ in fn) or None, "tree_before": sorted([list(p), k_] for p, (k_, _) in before.items()),
+                    case={"emitter": "fsevents", "recursive": rec_f, "mode": sig["mode"], "coalesce": did_coalesce, "tree_before": sorted([list(p), k_] for p, (k_, _) in before.items()),
                           "ops": [op_json(o) for o in ops], "natives": fn},
                     observed=detail + " | events " + str(fev)[:400], expected="C01/C03 contract"))
             if not rec_f:
@@ -657,20 +669,57 @@ def paced(ops, kinds_at):
     return True
 
 
-def burst_pattern(ops, fn):
-    """Why a batch of several operations is hard for the FSEvents emitter (diagnostic only)."""
-    ren = {}
-    for p, i, f in fn:
-        if f & F_RENAMED:
-            ren[i] = ren.get(i, 0) + 1
-    if any(n > 2 for n in ren.values()):
-        return "one item renamed more than once in the batch"
-    touched = []
+def rename_subjects(fs_before, ops):
+    """(operation kind, inode of the item) for every operation of the batch that FSEvents flags ItemRenamed
+    (rename inside the tree, move out, move in), in order - from the operation log, not from the emitter."""
+    fs = list(fs_before)
+    out = []
     for o in ops:
-        touched += op_paths(o)
-    if any(under(a, b) and a != b for a in touched for b in touched):
-        return "an ancestor of an earlier event's path was renamed/moved before the batch was processed"
-    return "+".join(sorted({o[0] for o in ops}))
+        byp = {p: i for p, _, i in fs}
+        if o[0] in ("rename", "moveout"):
+            out.append((o[0], byp.get(o[1])))
+        elif o[0] == "movein":
+            out.append((o[0], o[3]))
+        fs = py_apply(fs, o)
+    return out
+
+
+def batch_pattern(fs_before, ops, coalesced):
+    """The specific shape of a multi-operation batch, for failure signatures - computed from the operation log only.
+    Returns (pattern, detail).
+      item-...-in-one-batch : one and the same item (inode) is the subject of two or more operations that FSEvents flags
+                              ItemRenamed (rename inside the tree / move in / move out) inside the batch;
+      coalesced-rename-hoisted-over-earlier-operation-on-its-destination-name : the batch was coalesced, the source path
+                              of a rename was already touched earlier in the batch (so the renamed flag joins that earlier
+                              event) and an operation in between removed / moved away the old owner of the destination name;
+      rename-flagged-path-moved-again-before-processing : an item arrived at / was renamed to a path and a later
+                              operation of the batch renamed or moved out an ancestor directory of that path."""
+    by = {}
+    for t, i in rename_subjects(fs_before, ops):
+        by.setdefault(i, []).append(t)
+    for ts in by.values():
+        if len(ts) < 2:
+            continue
+        n = ts.count("rename")
+        words = (["moved-in"] if "movein" in ts else []) + \
+                (["renamed-more-than-once"] if n >= 2 and len(ts) == n else ["renamed"] if n else []) + \
+                (["moved-out"] if "moveout" in ts else [])
+        return "item-" + "-then-".join(words) + "-in-one-batch", ",".join(ts)
+    if coalesced:
+        for k, o in enumerate(ops):
+            if o[0] != "rename":
+                continue
+            firsts = [i for i in range(k) if o[1] in op_paths(ops[i])]
+            if firsts and any(o[2] in op_paths(ops[j]) for j in range(firsts[0] + 1, k)):
+                return "coalesced-rename-hoisted-over-earlier-operation-on-its-destination-name", "+".join(x[0] for x in ops)
+    for i, o in enumerate(ops):
+        landed = o[2] if o[0] == "rename" else o[1] if o[0] == "movein" else None
+        if landed is None:
+            continue
+        for later in ops[i + 1:]:
+            if later[0] in ("rename", "moveout") and later[1] != landed and under(later[1], landed):
+                return "rename-flagged-path-moved-again-before-processing", "+".join(x[0] for x in ops)
+    return "other:" + "+".join(sorted({o[0] for o in ops})), ""
 
 
 def resolve(ctx, res, pend):
@@ -700,14 +749,18 @@ def resolve(ctx, res, pend):
         if gb != fn:
             res.mismatches.append(Mismatch("FsEvents.fsevents_kernel vs harness mirror", str(o), str(gb), str(fn)))
     # Windows emitter
-    cases = [sx([Atom("winemit"), rec, root.encode(), [[a, n.encode()] for a, n in wn],
-                 [[p.encode(), d, tree_wire(t)] for p, (d, t) in orc.items()]]) for rec, root, wn, orc, wev, oj in pend["win"]]
-    for (rec, root, wn, orc, wev, oj), out in zip(pend["win"], core.run_model("platemit", cases)):
+    cases = [sx([Atom("winemit"), rec, root.encode(), st[0].encode(), [[a, n.encode()] for a, n in wn],
+                 [[p.encode(), d, tree_wire(t)] for p, (d, t) in orc.items()]]) for rec, root, wn, orc, wev, oj, st in pend["win"]]
+    for (rec, root, wn, orc, wev, oj, st), out in zip(pend["win"], core.run_model("platemit", cases)):
         res.traces_validated += 1
-        mo = [model_ev(e) for e in out[0]] if isinstance(out, list) and len(out) == 2 else out
-        if mo != wev:
+        ok = isinstance(out, list) and len(out) == 3
+        mo = [model_ev(e) for e in out[0]] if ok else out
+        ms = bytes.fromhex(out[1][1:]).decode() if ok else None
+        # st = (pending name before, expected after, the real emitter's attribute after | None on the pinned code)
+        if mo != wev or ms != st[1] or (st[2] is not None and st[2] != ms):
             res.mismatches.append(Mismatch("WinEmitter.queue_events vs WindowsApiEmitter.queue_events",
-                                           {"recursive": rec, "ops": oj, "natives": wn}, str(mo)[:500], str(wev)[:500]))
+                                           {"recursive": rec, "ops": oj, "natives": wn, "pending_old_name": st[0]},
+                                           str((mo, ms))[:500], str((wev, st[2]))[:500]))
     # FSEvents emitter
     cases = [sx([Atom("fseemit"), rec, root.encode(), view0, [[p.encode(), i, f] for p, i, f in fn],
                  [[p.encode(), ([] if ino is None else [ino]), tree_wire(t)] for p, (ino, t) in orc.items()]])
@@ -747,8 +800,8 @@ def run_removed_self(ctx, res: Result):
             d = WinDriver(tmp, rec)
             evs = [ev_tuple(e) for e in d.feed([(0xFFFE, ".")])]
             stopped = not d.em.should_keep_running()
-            out = core.run_model("platemit", [sx([Atom("winemit"), rec, tmp.encode(), [[0xFFFE, b"."]], []])])[0]
-            mo = ([model_ev(e) for e in out[0]], out[1] == "1") if isinstance(out, list) and len(out) == 2 else out
+            out = core.run_model("platemit", [sx([Atom("winemit"), rec, tmp.encode(), b"", [[0xFFFE, b"."]], []])])[0]
+            mo = ([model_ev(e) for e in out[0]], out[2] == "1") if isinstance(out, list) and len(out) == 3 else out
             res.evaluations += 1
             res.traces_validated += 1
             if mo != (evs, stopped):
@@ -823,8 +876,16 @@ def replay(ctx, case, res: Result, quiet=False):
                     for q, k, _ in sorted(o[4], key=lambda x: len(x[0])):
                         aq = os.path.join(ap, *q)
                         os.mkdir(aq) if k == "D" else open(aq, "w").close()
-            ops.append(tuple(tuple(x) if isinstance(x, list) and x and isinstance(x[0], str) else x for x in o))
+            o2 = [tuple(x) if isinstance(x, list) and x and isinstance(x[0], str) else x for x in o]
+            # inode numbers differ from the recorded run: take them from this execution, right after the operation
+            if t in ("create", "mkdir"):
+                o2 = [t, p, os.lstat(ap).st_ino]
+            elif t == "movein":
+                o2 = [t, p, o[2], os.lstat(ap).st_ino, [(q, k, i) for q, (k, i) in listing(ap).items()] if o[2] == "D" else []]
+            ops.append(tuple(o2))
         after = listing(root)
+        fse_ops = ops
+        did_coalesce = False
         if case["emitter"] == "windows":
             d = WinDriver(root, case["recursive"])
             nat = [tuple(n) for n in case["natives"]]
@@ -834,20 +895,19 @@ def replay(ctx, case, res: Result, quiet=False):
                 evs = [ev_tuple(e) for e in d.feed(nat)]
         else:
             d = FseDriver(root, case["recursive"])
-            ino_now = {}
-            # inode numbers differ from the recorded run: re-derive the natives from the simulator mirror
+            # re-derive the natives from the simulator mirror (inode numbers of this execution)
             fs = [(p, k, i) for p, (k, i) in before.items()]
             natives = []
-            cur_real = dict(before)
+            fse_ops = []
             for o in ops:
-                if o[0] in ("create", "mkdir"):
-                    o = (o[0], o[1], after.get(o[1], (None, 0))[1])
-                if o[0] == "movein":
-                    o = (o[0], o[1], o[2], after.get(o[1], (None, 0))[1], [(tuple(q), k, after.get(o[1] + tuple(q), (None, 0))[1]) for q, k, _ in o[4]])
                 natives += py_fse_kernel(root, fs, o)
+                fse_ops.append(o)
                 fs = py_apply(fs, o)
+            did_coalesce = False
             if len(natives) != len(case.get("natives") or natives) or case.get("coalesce"):
+                n0 = len(natives)
                 natives = py_coalesce(natives)
+                did_coalesce = len(natives) < n0
             evs = [ev_tuple(e) for e in d.feed(natives)]
         if not quiet:
             print("events:", evs)
@@ -858,8 +918,11 @@ def replay(ctx, case, res: Result, quiet=False):
         for law, detail, extra in bad:
             if case.get("cut") and law == "flavour":
                 continue
+            sig = make_sig(case["emitter"], law, mode, extra, nat)
+            if case["emitter"] == "fsevents" and mode == "several-ops-per-batch":
+                sig["pattern"], sig["detail"] = batch_pattern([(p, k, i) for p, (k, i) in before.items()], fse_ops, did_coalesce)
             res.failures.append(Failure(what=f"{case['emitter']}: {law} law violated", case=case,
-                                        signature=make_sig(case["emitter"], law, mode, extra, nat),
+                                        signature=sig,
                                         observed=detail + " | events " + str(evs)[:400]))
         if not case["recursive"] and case["emitter"] == "fsevents":
             for e in flat_violations(root, evs):
